@@ -169,6 +169,11 @@ fn strip_paren(e: &Expr) -> &Expr {
     }
 }
 
+thread_local! {
+    /// names of the current function's parameters whose declared type is a shared reference
+    static REF_PARAMS: std::cell::RefCell<std::collections::BTreeSet<String>> = std::cell::RefCell::new(Default::default());
+}
+
 #[derive(Clone)]
 enum Src {
     Range { lo: Expr, hi: Expr },
@@ -176,7 +181,7 @@ enum Src {
     /// `xs.iter_mut()`: the binder is `&mut xs[i]`; handled by substituting `*binder` with `xs[i]`
     IndexMut { base: Expr },
     /// `xs.chunks(n)`: chunk i is xs[i*n .. min(i*n+n, len)], ceil(len/n) chunks (std docs)
-    Chunks { base: Expr, size: Expr },
+    Chunks { base: Expr, size: Expr, exact: bool },
 }
 
 #[derive(Clone)]
@@ -187,6 +192,7 @@ enum Adapter {
     Skip(Expr),
     Zip(Box<Iter>),
     Map(syn::ExprClosure),
+    Flatten,
 }
 
 #[derive(Clone)]
@@ -212,7 +218,13 @@ fn parse_iter(e: &Expr, bare_ok: bool) -> Option<Iter> {
             let args: Vec<&Expr> = m.args.iter().collect();
             match (name.as_str(), args.len()) {
                 ("iter_mut", 0) => Some(Iter { src: Src::IndexMut { base: (*m.receiver).clone() }, adapters: vec![] }),
-                ("chunks", 1) => Some(Iter { src: Src::Chunks { base: (*m.receiver).clone(), size: args[0].clone() }, adapters: vec![] }),
+                ("chunks", 1) => Some(Iter { src: Src::Chunks { base: (*m.receiver).clone(), size: args[0].clone(), exact: false }, adapters: vec![] }),
+                ("chunks_exact", 1) => Some(Iter { src: Src::Chunks { base: (*m.receiver).clone(), size: args[0].clone(), exact: true }, adapters: vec![] }),
+                ("flatten", 0) => {
+                    let mut it = parse_iter(&m.receiver, false)?;
+                    it.adapters.push(Adapter::Flatten);
+                    Some(it)
+                }
                 ("iter", 0) => Some(Iter { src: Src::Index { base: (*m.receiver).clone(), by_ref: true }, adapters: vec![] }),
                 ("into_iter", 0) => Some(Iter { src: Src::Index { base: (*m.receiver).clone(), by_ref: false }, adapters: vec![] }),
                 ("copied", 0) | ("cloned", 0) => {
@@ -276,6 +288,10 @@ fn parse_iter(e: &Expr, bare_ok: bool) -> Option<Iter> {
         Expr::Reference(r) if bare_ok && r.mutability.is_none() => {
             Some(Iter { src: Src::Index { base: (*r.expr).clone(), by_ref: true }, adapters: vec![] })
         }
+        Expr::Path(p) if bare_ok && p.path.get_ident().map(|i| REF_PARAMS.with(|r| r.borrow().contains(&i.to_string()))).unwrap_or(false) => {
+            // `for x in param` where `param: &[T; N]` / `&Vec<T>`: iteration by reference
+            Some(Iter { src: Src::Index { base: e.clone(), by_ref: true }, adapters: vec![] })
+        }
         Expr::Path(_) | Expr::Field(_) if bare_ok => Some(Iter { src: Src::Index { base: e.clone(), by_ref: false }, adapters: vec![] }),
         // `for x in f(..)` over an owned Vec result: bound to a temporary and indexed by value
         Expr::Call(_) if bare_ok => Some(Iter { src: Src::Index { base: e.clone(), by_ref: false }, adapters: vec![] }),
@@ -299,6 +315,18 @@ fn strip_ref_pat(pat: &Pat, elem: &Expr) -> (Pat, Expr) {
         }
         _ => (pat.clone(), elem.clone()),
     }
+}
+
+/// `&base`, or `base` itself when it is a parameter that already is a shared reference
+fn ref_of(base: &Expr) -> Expr {
+    if let Expr::Path(p) = strip_paren(base) {
+        if let Some(i) = p.path.get_ident() {
+            if REF_PARAMS.with(|r| r.borrow().contains(&i.to_string())) {
+                return base.clone();
+            }
+        }
+    }
+    parse_quote!(&#base)
 }
 
 fn span_key(s: Span) -> (usize, usize, usize, usize) {
@@ -350,6 +378,17 @@ impl Norm {
     }
 
     pub fn run_fn(&mut self, sig: &mut syn::Signature, block: &mut Block, named_ret: bool) {
+        REF_PARAMS.with(|r| {
+            let mut r = r.borrow_mut();
+            r.clear();
+            for a in sig.inputs.iter() {
+                if let syn::FnArg::Typed(t) = a {
+                    if let (Pat::Ident(pi), syn::Type::Reference(tr)) = (&*t.pat, &*t.ty) {
+                        if tr.mutability.is_none() { r.insert(pi.ident.to_string()); }
+                    }
+                }
+            }
+        });
         {
             let mut f = FoldShl(0);
             f.visit_block_mut(block);
@@ -505,13 +544,18 @@ impl Norm {
     /// `skip/take/zip/enumerate` adapters to (index var, lo, hi, element expression).
     fn lower_iter(&mut self, it: &Iter, pre: &mut Vec<Stmt>) -> Option<(Ident, Expr, Expr, Expr, String)> {
         let mut ads = it.adapters.clone();
-        if let Src::Chunks { base, size } = &it.src {
+        if let Src::Chunks { base, size, exact } = &it.src {
             let base = self.bind_simple(base.clone(), "src", pre);
             let size = self.bind_simple(size.clone(), "csz", pre);
             let idx = self.fresh("i");
             let cnt = self.fresh("nchunks");
-            pre.push(parse_quote!(let #cnt = if #base.len() % #size == 0 { #base.len() / #size } else { #base.len() / #size + 1 };));
-            let mut elem: Expr = parse_quote!(vsub(&#base, #idx * #size, if #idx * #size + #size < #base.len() { #idx * #size + #size } else { #base.len() }));
+            if *exact {
+                pre.push(parse_quote!(let #cnt = #base.len() / #size;));
+            } else {
+                pre.push(parse_quote!(let #cnt = if #base.len() % #size == 0 { #base.len() / #size } else { #base.len() / #size + 1 };));
+            }
+            let rb = ref_of(&base);
+            let mut elem: Expr = parse_quote!(vsub(#rb, #idx * #size, if #idx * #size + #size < #base.len() { #idx * #size + #size } else { #base.len() }));
             let mut notes = vec!["chunks"];
             let mut hi: Expr = parse_quote!(#cnt);
             while !ads.is_empty() {
@@ -583,7 +627,7 @@ impl Norm {
                     elem = parse_quote!((#idx, #elem));
                     notes.push("enumerate");
                 }
-                Adapter::Rev | Adapter::Map(_) => return None,
+                Adapter::Rev | Adapter::Map(_) | Adapter::Flatten => return None,
             }
         }
         Some((idx, lo, hi, elem, notes.join(",")))
@@ -600,6 +644,37 @@ impl Norm {
 
     fn search_to_block_inner(&mut self, it: &Iter, kind: &str, pat: Pat, stmts: Vec<Stmt>, val: Expr, sp: Span) -> Option<Expr> {
         let mut pre: Vec<Stmt> = vec![];
+        // `xs.iter().flatten().all/any(p)`: two nested short-circuiting index loops (inner items are arrays/slices)
+        if let (Src::Index { base, by_ref: true }, [Adapter::Flatten]) = (&it.src, it.adapters.as_slice()) {
+            if kind == "position" { return None; }
+            let base = self.bind_simple(base.clone(), "src", &mut pre);
+            let i = self.fresh("i");
+            let j = self.fresh("j");
+            let acc = self.fresh(kind);
+            self.rule("N6", sp, &format!(".iter().flatten().{kind}(..) -> nested short-circuiting index loops"));
+            let (init, cond, hit): (Expr, Expr, Stmt) = if kind == "all" {
+                (parse_quote!(true), parse_quote!(#acc), parse_quote!(if !(#val) { #acc = false; }))
+            } else {
+                (parse_quote!(false), parse_quote!(!#acc), parse_quote!(if #val { #acc = true; }))
+            };
+            return Some(parse_quote!({
+                #(#pre)*
+                let mut #acc = #init;
+                let mut #i = 0;
+                while #cond && #i < #base.len() {
+                    let mut #j = 0;
+                    while #cond && #j < #base[#i].len() {
+                        let #pat = &#base[#i][#j];
+                        __vx_loop_body_here!();
+                        #(#stmts)*
+                        #hit
+                        #j = #j + 1;
+                    }
+                    #i = #i + 1;
+                }
+                #acc
+            }));
+        }
         let (idx, lo, hi, elem, _notes) = match (&it.src, it.adapters.is_empty()) {
             (Src::Range { lo, hi }, true) => {
                 let idx = self.fresh("i");
@@ -855,6 +930,22 @@ impl<'a> Rewriter<'a> {
                 }
             }
             None => {}
+        }
+        // N24: `let Ok(x) = e else { D };` -> `let x = match e { Ok(x) => x, _ => D };`
+        if let Stmt::Local(l) = &s {
+            if let (Some(init), Pat::TupleStruct(ts)) = (&l.init, &l.pat) {
+                if let Some((_, div)) = &init.diverge {
+                    if ts.elems.len() == 1 {
+                        if let Pat::Ident(pi) = &ts.elems[0] {
+                            let x = &pi.ident;
+                            let e = &init.expr;
+                            let pat = &l.pat;
+                            self.n.rule("N24", s.span(), "let-else -> match with diverging arm");
+                            return vec![parse_quote!(let #x = match #e { #pat => #x, _ => #div };)];
+                        }
+                    }
+                }
+            }
         }
         if let Stmt::Item(syn::Item::Use(u)) = &s {
             // function-local imports of macro crates are dropped (their macros are rewritten by N8); others are kept
@@ -1118,8 +1209,12 @@ impl<'a> VisitMut for Rewriter<'a> {
                         }
                     }
                     ("all", 1) | ("any", 1) | ("position", 1) => {
-                        if let (Some(it), Expr::Closure(c)) = (parse_iter(&m.receiver, false), strip_paren(&m.args[0])) {
-                            let c = c.clone();
+                        let pred: Option<syn::ExprClosure> = match strip_paren(&m.args[0]) {
+                            Expr::Closure(c) => Some(c.clone()),
+                            Expr::Path(p) => Some(parse_quote!(|__x| #p(__x))),
+                            _ => None,
+                        };
+                        if let (Some(it), Some(c)) = (parse_iter(&m.receiver, false), pred) {
                             match self.n.search_to_block(&it, &name, &c, sp) {
                                 Some(b) => replacement = Some(b),
                                 None => self.n.errors.push(format!("unsupported .{name}() chain at source line {}", sp.start().line)),
@@ -1147,6 +1242,11 @@ impl<'a> VisitMut for Rewriter<'a> {
                                 }
                             }
                         }
+                    }
+                    ("sort", 0) => {
+                        self.n.rule("N22", sp, "x.sort() -> x.vsort() (prelude trait: sorted permutation, spec per element type)");
+                        let r = &m.receiver;
+                        replacement = Some(parse_quote!(#r.vsort()));
                     }
                     ("try_into", 0) => {
                         // N19: type-directed std conversion; the prelude trait VTryInto carries one trusted spec per type pair
@@ -1204,7 +1304,8 @@ impl<'a> VisitMut for Rewriter<'a> {
                             let lo: Expr = rg.start.as_ref().map(|b| (**b).clone()).unwrap_or_else(|| parse_quote!(0));
                             let hi: Expr = rg.end.as_ref().map(|b| (**b).clone()).unwrap_or_else(|| parse_quote!(#base.len()));
                             self.n.rule("N21", sp, "&x[a..b] -> vsub(&x, a, b)");
-                            replacement = Some(parse_quote!(vsub(&#base, #lo, #hi)));
+                            let rb = ref_of(base);
+                            replacement = Some(parse_quote!(vsub(#rb, #lo, #hi)));
                         }
                     }
                 }
